@@ -95,6 +95,13 @@ pub struct Field {
     pub array: Option<ArrayDecl>,
     pub ty: FieldTy,
     pub access: Access,
+    /// order of the attribute arguments: 0 = range, access, stride (documented); 1..=5 the other
+    /// permutations (all accepted by the macro's argument parser)
+    #[serde(default)]
+    pub arg_order: u8,
+    /// Option<E> written as 1: `core::option::Option<E>`, 2: `::core::option::Option<E>`
+    #[serde(default)]
+    pub opt_path: u8,
 }
 
 #[derive(Clone, Debug, Serialize, Deserialize, PartialEq, Eq, Hash)]
@@ -141,6 +148,10 @@ pub struct Variant {
     pub name: String,
     pub disc: Disc,
     pub cfg: Cfg,
+    /// attribute spelling: 0 plain; 1 `#[allow(dead_code)]` before the cfg; 2 two cfg attributes
+    /// (Always: all() all(); Never: all() then any()); 3 a doc comment before the cfg
+    #[serde(default)]
+    pub style: u8,
 }
 
 #[derive(Clone, Debug, Serialize, Deserialize, PartialEq, Eq, Hash)]
